@@ -102,11 +102,11 @@ def run(tier, work):
     verdict = vlib.Verdict(PROP)
     exe = build.ensure_harness("vdrv", ["vdrv.cpp"])
     cfg = "GenQuick.cfg" if tier == "quick" else "GenThorough.cfg"
-    hists, gs = vlib.generate(SPEC, "RefGen", cfg, work, "p2a", timeout=3000, heap="16g", cap=(5000 if tier == "quick" else 300000))
+    hists, gs = vlib.generate(SPEC, "RefGen", cfg, work, "p2a", timeout=3000, heap="16g", cap=(5000 if tier == "quick" else 60000))
     print("TLC P1 RefCount (CountsExact, NothingDangling) via RefGen: %d states, %d transitions, ok; %d histories" % (gs["states"], gs["transitions"], len(hists)))
     rnd = random.Random(vlib.SEED)
     hists.sort(key=lambda h: json.dumps(h, sort_keys=True))
-    cap = 5000 if tier == "quick" else 300000
+    cap = 5000 if tier == "quick" else 60000
     if len(hists) > cap:
         rnd.shuffle(hists)
         hists = hists[:cap]
